@@ -28,9 +28,36 @@ import (
 
 const (
 	verifDir = "/verif"
-	repoDir  = "/repo"
 	goBin    = "/opt/veriftools/go1.26.8/bin"
 )
+
+// repoDir is the tree under test: /repo, unless VERIF_REPO points at a scratch worktree (used to evaluate
+// seeded changes without touching /repo; the registered commands never set it).
+var repoDir = func() string {
+	if d := os.Getenv("VERIF_REPO"); d != "" {
+		return filepath.Clean(d)
+	}
+	return "/repo"
+}()
+
+// altModfile writes a copy of sim/go.mod whose replace directives point at repoDir, for -modfile.
+func altModfile(dir string) (string, error) {
+	if repoDir == "/repo" {
+		return "", nil
+	}
+	b, err := os.ReadFile(filepath.Join(verifDir, "sim", "go.mod"))
+	if err != nil {
+		return "", err
+	}
+	mod := strings.ReplaceAll(string(b), "=> /repo/", "=> "+repoDir+"/")
+	alt := filepath.Join(dir, "alt.mod")
+	if err := os.WriteFile(alt, []byte(mod), 0o644); err != nil {
+		return "", err
+	}
+	sum, _ := os.ReadFile(filepath.Join(verifDir, "sim", "go.sum"))
+	os.WriteFile(filepath.Join(dir, "alt.sum"), sum, 0o644)
+	return alt, nil
+}
 
 func goEnv() []string {
 	env := os.Environ()
@@ -146,6 +173,8 @@ func ensureBinary(mode string) *buildInfo {
 	bin := filepath.Join(dir, "sim."+mode)
 	bi := &buildInfo{Dir: dir, Bin: bin, Hash: hash}
 	if _, err := os.Stat(bin); err == nil {
+		now := time.Now()
+		os.Chtimes(dir, now, now) // mark the tree as in use: pruneCache spares recently used trees
 		return bi
 	}
 	os.MkdirAll(dir, 0o755)
@@ -179,6 +208,13 @@ func ensureBinary(mode string) *buildInfo {
 	defer os.RemoveAll(tmp)
 	cleanup = append(cleanup, func() { os.RemoveAll(tmp) })
 	env := goEnv()
+	alt, aerr := altModfile(tmp)
+	if aerr != nil {
+		die(2, "alt modfile: %v", aerr)
+	}
+	if alt != "" {
+		env = append(env, "GOFLAGS=-mod=mod -modfile="+alt)
+	}
 	out, err := run(filepath.Join(verifDir, "sim"), env, instr, "-src", filepath.Join(repoDir, "service"), "-dst", filepath.Join(tmp, "service"), "-meta", filepath.Join(tmp, "service.json"))
 	if err != nil {
 		die(2, "cannot instrument service (tree does not type-check or rewriter refused):\n%s", out)
@@ -232,7 +268,9 @@ func pruneCache(keep string) {
 	}
 	sort.Slice(es, func(i, j int) bool { return es[i].t.After(es[j].t) })
 	for i, x := range es {
-		if i >= 5 && x.name != keep {
+		// keep the newest six and everything used within the last three hours (a long thorough run may
+		// still be executing its binary while other trees are being built)
+		if i >= 6 && x.name != keep && time.Since(x.t) > 3*time.Hour {
 			os.RemoveAll(filepath.Join(root, x.name))
 		}
 	}
